@@ -7,6 +7,7 @@ from harness.build import table_with_py
 
 from deeprob.spn.structure.node import Sum, Product, assign_ids
 from deeprob.spn.structure.leaf import Bernoulli, Categorical, Gaussian
+from deeprob.spn.structure.cltree import BinaryCLT
 from deeprob.spn.models.sklearn import SPNClassifier, SPNEstimator
 from deeprob.spn.algorithms.inference import log_likelihood, mpe
 
@@ -191,6 +192,51 @@ def check_estimator(ctx, rs, rep):
         ctx.violation('c20-estimator-sample', 'estimator sampling: out-of-domain values', replay=rep)
 
 
+def check_estimator_xpc(ctx, rs, rep):
+    """the estimator facade over the XPC learners (`method='xpc'`): Chow-Liu leaves with shuffled variable orderings inside a learned
+    circuit.  `predict_log_proba` on complete and NaN-marked rows against an evaluation of the wrapped circuit from its PARAMETERS
+    (`S.ref_value`: plain recursion, Chow-Liu leaves by enumeration), `mpe` / `sample` contract."""
+    n_feat = int(rs.choice([4, 5, 6, 8]))
+    base = (rs.rand(300, n_feat) < 0.5)
+    for j in range(1, n_feat):          # dependent columns, so that the partitions keep multi-variable Chow-Liu leaves
+        if rs.rand() < 0.6:
+            base[:, j] = np.where(rs.rand(300) < 0.8, base[:, j - 1], ~base[:, j - 1])
+    X = base.astype(np.float32)
+    cfg = dict(method='xpc', det=bool(rs.rand() < 0.3), sd=bool(rs.rand() < 0.5), min_part_inst=int(rs.choice([20, 40])), conj_len=int(rs.choice([1, 2])),
+               arity=int(rs.choice([2, 3])), use_clt=True, random_seed=int(rs.randint(1000)))
+    est = SPNEstimator([Bernoulli] * n_feat, [[0, 1]] * n_feat, **cfg)
+    try:
+        import io, contextlib
+        with contextlib.redirect_stdout(io.StringIO()):
+            est.fit(X)
+    except Exception:
+        ctx.count('xpc-fit-did-not-return')
+        return
+    ctx.count('xpc-estimators')
+    unsorted = [n for n in S.bfs_order(est.spn_) if isinstance(n, BinaryCLT) and list(n.scope) != sorted(n.scope)]
+    ctx.count('xpc-estimators-with-unsorted-clt-scope' if unsorted else 'xpc-estimators-sorted-scopes-only')
+    if any(max(n.scope) - min(n.scope) + 1 == len(n.scope) for n in unsorted):
+        ctx.count('xpc-estimators-with-unsorted-clt-scope-over-an-interval-of-columns')
+    rep = dict(rep, cfg={k: (v if not isinstance(v, (np.integer, np.bool_)) else v.item()) for k, v in cfg.items()}, n_feat=n_feat)
+    Q = X[rs.permutation(len(X))[:12]].copy()
+    Q[6:][rs.rand(6, n_feat) < 0.4] = np.nan
+    a = np.asarray(est.predict_log_proba(Q), dtype=np.float64).reshape(-1)
+    for r in range(len(Q)):
+        ref = S.ref_value(est.spn_, Q[r].astype(np.float64))
+        if ref <= 0 or abs(math.exp(a[r]) - ref) > 1e-6 + 2e-4 * ref:
+            ctx.violation('c20-estimator-xpc-logproba', f'estimator (method=xpc) predict_log_proba {a[r]!r} (probability {math.exp(a[r])!r}) but the wrapped circuit, '
+                          f'evaluated from its parameters, has value {ref!r} at {[None if np.isnan(t) else float(t) for t in Q[r]]}', replay=rep)
+            return
+    m1 = np.asarray(est.mpe(Q))
+    obs = ~np.isnan(Q)
+    if m1.shape != Q.shape or np.any(np.isnan(m1)) or not np.array_equal(m1[obs], Q[obs]) or not np.all(np.isin(m1, [0.0, 1.0])):
+        ctx.violation('c20-estimator-xpc-mpe', 'estimator (method=xpc) mpe: unfilled entries, changed evidence or out-of-domain values', replay=rep)
+        return
+    s2 = np.asarray(est.sample(X=Q))
+    if s2.shape != Q.shape or np.any(np.isnan(s2)) or not np.array_equal(s2[obs], Q[obs]):
+        ctx.violation('c20-estimator-xpc-sample', 'estimator (method=xpc) sample(X=...): unfilled entries or changed evidence', replay=rep)
+
+
 def clf_case(ctx, k):
     rs = np.random.RandomState(np_seed(ctx.sub_rng('clf', k)))
     n_classes = [2, 3, 5, 2, 4][k % 5]
@@ -280,6 +326,9 @@ def run(ctx):
         rs = np.random.RandomState(np_seed(ctx.sub_rng('est', k)))
         ctx.case('estimator', nontrivial_key=('est', k), sample=dict(kind='estimator', k=k))
         check_estimator(ctx, rs, dict(kind='c20-est', k=k, seed=ctx.seed))
+        for j in range(5):
+            if ctx.n_new() == 0:
+                check_estimator_xpc(ctx, rs, dict(kind='c20-est-xpc', k=k, j=j, seed=ctx.seed))
         if ctx.n_new(with_input_only=True) >= 3:
             return
         ctx.case('estimator-float64', nontrivial_key=('est64', k), sample=dict(kind='estimator-float64', k=k))
